@@ -3,6 +3,7 @@ import LarkVerif.Repeat
 import LarkVerif.Props.C06
 import LarkVerif.Indenter
 import LarkVerif.LexModel
+import LarkVerif.EarleyExec
 import Std.Data.HashMap
 /-! Line-protocol driver: one JSON request per stdin line (`{"op": ...}`), one JSON answer per stdout line.
     Runs the *executable definitions the theorems are about*.  Not part of the proof library. -/
@@ -129,6 +130,43 @@ def runLex (j : Json) : Except String Json := do
                     ("err", match err with | none => Json.null | some e => lexErrJ e),
                     ("order", natArr (L.scanList (L.sorted all)))])
 
+open EarleyProto in
+def symOf (j : Json) : Except String Sym := do
+  match (← j.getArr?).toList with
+  | [k, n] => do
+    let k ← k.getNat?
+    let n ← n.getNat?
+    pure (if k = 1 then Sym.t n else Sym.nt n)
+  | _ => throw "sym"
+
+open EarleyProto in
+def ruleOf (j : Json) : Except String Rule := do
+  pure ⟨← getNat j "lhs", ← (← getArr j "rhs").mapM symOf⟩
+
+open EarleyProto in
+def runEarley (j : Json) : Except String Json := do
+  let rules ← (← getArr j "rules").mapM ruleOf
+  let n ← getNat j "n"
+  let edges ← (← getArr j "edges").mapM tripleOf
+  let igns ← (← getArr j "igns").mapM spanOf
+  let start ← getNat j "start"
+  let G : Grammar := ⟨rules⟩
+  let L : FLattice := ⟨n, edges, igns⟩
+  let c := chart G L start
+  let acc := accepts G L start
+  let ridx (r : Rule) : Nat := (rules.findIdx? (· == r)).getD rules.length
+  let cols := (List.range (n+1)).map fun i =>
+    let items := (c.filter (fun x => x.col = i)).map fun x => [ridx x.rule, x.dot, x.origin]
+    Json.arr ((items.mergeSort (fun a b => a ≤ b)).map natArr).toArray
+  -- expected terminals per column: items whose next symbol is a terminal
+  let exp := (List.range (n+1)).map fun i =>
+    let ts := (c.filter (fun x => x.col = i)).filterMap fun x => match x.rule.rhs[x.dot]? with
+      | some (Sym.t a) => some a
+      | _ => none
+    natArr (ts.mergeSort (fun a b => a ≤ b)).eraseDups
+  let wf := edges.all (fun e => e.2.1 < e.2.2 && e.2.2 ≤ n) && igns.all (fun e => e.1 < e.2 && e.2 ≤ n)
+  pure (Json.mkObj [("accept", Json.bool acc), ("cols", Json.arr cols.toArray), ("expected", Json.arr exp.toArray), ("wf", Json.bool wf)])
+
 def handle (j : Json) : Except String Json := do
   let op ← getStr j "op"
   match op with
@@ -172,6 +210,7 @@ def handle (j : Json) : Except String Json := do
     let toks ← (← getArr j "toks").mapM indTokOf
     pure (runIndenter toks)
   | "lex" => runLex j
+  | "earley" => runEarley j
   | _ => throw s!"unknown op {op}"
 
 partial def loop (h : IO.FS.Stream) (out : IO.FS.Stream) : IO Unit := do
